@@ -212,6 +212,17 @@ func c04(c *an.Check) {
 		}
 		c.Require(ok, "PROVENANCE", "mountedStream.linkPeer = link.GetRemotePeer()", nms, "", 1, "constructor stores the mounted link's remote peer", "a stream's peer is not the remote peer of the link it arrived on")
 	}
+	// requests with different sources must stay different directives (de-duplication happens on the bus)
+	sub := an.NewCheck(c.Prop, c.Tier, p)
+	c37(sub)
+	n := 0
+	for _, o := range sub.Obls {
+		if strings.Contains(o.Construct, "establishLinkWithPeer") {
+			c.Obls = append(c.Obls, o)
+			n++
+		}
+	}
+	c.Require(n >= 2, "EQUIV", "EstablishLinkWithPeer equivalence obligations re-decided", nil, "", n, "source and target are both compared", "the EstablishLinkWithPeer IsEquivalent obligations were not found (anchor drift)")
 	tcLockset(c, a)
 }
 
@@ -320,6 +331,39 @@ func c06(c *an.Check) {
 		}
 	}
 	c.Require(okId, "PROVENANCE", "transport controller flush removes exactly the flushed entry from the per-peer list", a.flush, "", 1, "list element == el", "the per-peer list removal does not compare with the flushed entry")
+	// ... and the slot that is overwritten (swap-remove) is the slot of the matching element
+	c.Gate(an.GateSpec{Construct: "transport controller flush shrinks the per-peer list", Fn: a.flush,
+		Sink: func(s *an.State, ins ssa.Instruction) bool {
+			sl, ok := ins.(*ssa.Slice)
+			return ok && sl.High != nil && sl.Low == nil && strings.HasSuffix(sl.Type().String(), "establishedLink")
+		},
+		Reqs: []an.Req{{Name: "the matching element's own slot was overwritten before shrinking", Holds: func(s *an.State, at ssa.Instruction) bool {
+			// the index of the element that compared equal to the flushed entry on this path
+			var idxKey string
+			s.AnyFact(func(s *an.State, x, y ssa.Value, r an.Rel) bool {
+				if r != an.EQ || !an.IsParam(s.Canon(y), 1) {
+					return false
+				}
+				if u, ok := x.(*ssa.UnOp); ok {
+					if ia, ok := u.X.(*ssa.IndexAddr); ok {
+						idxKey = s.Key(ia.Index)
+						return true
+					}
+				}
+				return false
+			})
+			if idxKey == "" {
+				return false
+			}
+			return s.Executed(at, func(i ssa.Instruction) bool {
+				st, ok := i.(*ssa.Store)
+				if !ok {
+					return false
+				}
+				ia, ok := st.Addr.(*ssa.IndexAddr)
+				return ok && s.Key(ia.Index) == idxKey && !isNilConst(st.Val)
+			})
+		}}}})
 	// duplicate establish: no second insert for the same link object
 	c.Gate(an.GateSpec{Construct: "transport controller inserts a link into the uuid table", Fn: a.est,
 		Sink: func(s *an.State, ins ssa.Instruction) bool {
@@ -406,7 +450,7 @@ func c06(c *an.Check) {
 
 func c05(c *an.Check) {
 	p := c.P
-	qPkg := "transport/common/quic"
+	const qPkg = "transport/common/quic"
 	dp := p.Func(qPkg, "Transport", "DialPeer")
 	if dp == nil {
 		c.Undecided("GATE", "quic.Transport.DialPeer", nil, "unresolved anchor")
@@ -484,6 +528,49 @@ func c05(c *an.Check) {
 			}
 		}
 		c.Require(okR, "MUSTCALL", "transport controller restarts dialers resolved with a lost link", a.flush, "", 1, "flush → linkDialers.RestartAllRoutines(filter by peer and link identity)", "losing a link does not restart the dialers that were parked on it")
+	}
+	// the per-address dialer always unregisters itself when it finishes (success or failure), so a later dial of
+	// the same address starts a fresh attempt instead of re-reading a stale result
+	dialersF := fv(c, qPkg, "Transport", "dialers")
+	exe := one(pkgFuncsWhere(p, qPkg, func(f *ssa.Function) bool {
+		return f.Signature.Recv() != nil && isNamedPtr(f.Signature.Recv().Type(), "Dialer") && callsAny(f, an.R(qPkg, "Transport", "HandleSession"))
+	}))
+	if exe == nil || dialersF == nil {
+		c.Undecided("MUSTCALL", "quic dialer unregisters itself on every exit", nil, "unresolved anchor")
+	} else {
+		isCleanupDefer := func(i ssa.Instruction) bool {
+			d, ok := i.(*ssa.Defer)
+			if !ok {
+				return false
+			}
+			mc, ok := d.Call.Value.(*ssa.MakeClosure)
+			if !ok {
+				return false
+			}
+			g := mc.Fn.(*ssa.Function)
+			del, ident := false, false
+			for _, b := range g.Blocks {
+				for _, ins := range b.Instrs {
+					if call, ok := ins.(*ssa.Call); ok && an.BuiltinName(call) == "delete" && an.IsFieldLoad(call.Call.Args[0], dialersF) {
+						del = true
+					}
+					if bo, ok := ins.(*ssa.BinOp); ok && bo.Op.String() == "==" {
+						if _, isLk := bo.X.(*ssa.Extract); isLk {
+							ident = true
+						}
+						if _, isLk := bo.Y.(*ssa.Extract); isLk {
+							ident = true
+						}
+					}
+				}
+			}
+			return del && ident
+		}
+		c.Gate(an.GateSpec{Rule: "MUSTCALL", Construct: "quic dialer unregisters itself on every exit", Fn: exe,
+			Sink: func(s *an.State, ins ssa.Instruction) bool { _, ok := ins.(*ssa.Return); return ok },
+			Reqs: []an.Req{{Name: "a deferred cleanup that removes this dialer (identity-checked) from Transport.dialers is armed", Holds: func(s *an.State, at ssa.Instruction) bool {
+				return s.Executed(at, isCleanupDefer)
+			}}}})
 	}
 	c.Note("not decided: retry timing/backoff; which peer answers at an address is a runtime fact")
 }
